@@ -74,7 +74,7 @@ func main() {
 		"(a') every sequence of <= N Put/Delete/multi-Put ops on the treaps with every earlier version re-checked; " +
 		"(b) every block-file I/O call of every fixed history failed in turn (error / short write), also a second fault during the rollback; " +
 		"(c) every prefix of the block-file write log x every subset of unsynced writes dropped x torn last write, reopened through database.Open")
-	r.Assume("goleveldb is atomic and durable per write batch / transaction commit (the metadata directory of a crash image is the cleanly closed state after the last leveldb commit inside the log prefix)")
+	r.Assume("goleveldb is atomic and durable per write batch / transaction commit: the metadata directory of a crash image is the point-in-time copy of the leveldb directory that the recorder took when it OBSERVED the last change of its logical content inside the log prefix (each copy is verified by opening it with goleveldb); two leveldb commits with no block-file event between them are observed as one change")
 	r.Assume("file creation, truncation and deletion are durable immediately (directory entries are not subject to loss in the crash model); only WriteAt data not covered by a later Sync of the same file can be lost or torn")
 	r.Assume("the relative order in which a Cursor walks key/value pairs and nested buckets is not fixed by interface.go; the reference uses: all pairs in byte order, then all nested buckets in byte order")
 	r.Assume("after a modification of a bucket other than Cursor.Delete its cursors are unpredictable until repositioned (interface.go); such cursor reads are not compared")
